@@ -121,6 +121,95 @@ def _canon_dict(dd):
     return [[[int(e) for e in k], rat(Fraction(v))] for k, v in dd.items()]
 
 
+# --- HTY number types of weights / key entries (class "number type / array dtype"): the caller's dictionary with other TYPES of the
+# same numbers.  A type is used only where it holds every value exactly (a narrow numpy integer type also has to hold three times
+# the total plus five: the constructor history edits the caller's dictionary, and the unchanged library adds numpy scalars up in
+# their own type - see ASSUMPTIONS), so a case means the same whatever the type.
+HTY_VTYPES = ["Fraction", "bool", "npfloat32", "npint64", "npint32", "npint8", "npuint8", "npuint64"]
+HTY_KTYPES = ["npint8", "npuint8", "npint32", "npuint64", "npmix", "bool"]
+_HTY_NPINT = {"npint64": "int64", "npint32": "int32", "npint8": "int8", "npuint8": "uint8", "npuint64": "uint64"}
+_to_dict_plain = _to_dict
+_canon_dict_plain = _canon_dict
+
+
+def _hty_values(fs, vtype):
+    """the rationals fs as objects of the type vtype, or None (-> the plain route) where the type cannot hold all of them"""
+    import numpy as np
+    if vtype == "Fraction":
+        return [Fraction(f) for f in fs]
+    if vtype == "bool":
+        return [bool(f) if f in (0, 1) else (int(f) if f.denominator == 1 else float(f)) for f in fs] if any(f in (0, 1) for f in fs) else None
+    if vtype == "npfloat32":
+        with warnings.catch_warnings():
+            warnings.simplefilter("ignore")
+            ok = all(f == Fraction(float(f)) and float(np.float32(float(f))) == float(f) for f in fs)
+            tot = sum(fs)
+            ok = ok and float(np.float32(float(tot))) == float(tot) == tot
+        return [np.float32(float(f)) for f in fs] if ok else None
+    if vtype in _HTY_NPINT:
+        info = np.iinfo(_HTY_NPINT[vtype])
+        if not all(f.denominator == 1 for f in fs):
+            return None
+        if 3 * sum(f for f in fs if f > 0) + 5 > info.max or min(list(fs) + [0]) * 3 < info.min:
+            return None
+        t = getattr(np, _HTY_NPINT[vtype])
+        return [t(int(f)) for f in fs]
+    return None
+
+
+def _hty_key(key, ktype, salt):
+    """tuple entries as numpy integers of the width ktype / one width per entry / Python bools (entries 0 and 1)"""
+    import numpy as np
+    if not isinstance(key, tuple):
+        return key
+    if ktype == "bool":
+        return tuple(bool(e) for e in key) if all(e in (0, 1) for e in key) else key
+    if ktype == "npmix":
+        tys = [np.int8, np.int64, np.uint8, np.int32, np.uint64, np.int16, np.intp]
+        out = []
+        for i, e in enumerate(key):
+            t = tys[(salt + i) % len(tys)]
+            info = np.iinfo(t)
+            out.append(t(e) if info.min <= e <= info.max else e)
+        return tuple(out)
+    if ktype in _HTY_NPINT:
+        t = getattr(np, _HTY_NPINT[ktype])
+        info = np.iinfo(t)
+        return tuple(t(e) if info.min <= e <= info.max else e for e in key)
+    return key
+
+
+def _to_dict(items, vtype="float", ktype="py"):
+    if vtype not in HTY_VTYPES and ktype not in HTY_KTYPES:
+        return _to_dict_plain(items, vtype, ktype)
+    vals = _hty_values([Fraction(unrat(v)) for _, v in items], vtype) if vtype in HTY_VTYPES else None
+    plain = _to_dict_plain(items, "int" if (vtype in _HTY_NPINT or vtype == "bool") else "float" if vtype in HTY_VTYPES else vtype,
+                           "py" if ktype in HTY_KTYPES else ktype)
+    if len(plain) != len(items):   # (one spelling twice: the plain dictionary has merged the two items; it is kept as it is)
+        return plain
+    out = {}
+    for j, (pk, pv) in enumerate(plain.items()):
+        out[_hty_key(pk, ktype, j) if ktype in HTY_KTYPES else pk] = pv if vals is None else vals[j]
+    return out if len(out) == len(plain) else plain
+
+
+def _hty_exact(v):
+    """exact rational value of whatever number object the library stores"""
+    if isinstance(v, Fraction):
+        return v
+    if isinstance(v, bool):
+        return Fraction(int(v))
+    if hasattr(v, "numerator") and hasattr(v, "denominator") and not isinstance(v, float):
+        return Fraction(int(v.numerator), int(v.denominator))
+    return Fraction(float(v))
+
+
+def _canon_dict(dd):
+    """distribution_dict -> [[key as list, exact value]] in insertion order (values / entries of any number type)"""
+    return [[[int(e) for e in k], rat(_hty_exact(v))] for k, v in dd.items()]
+# --- HTY end
+
+
 def _parse_key(k):
     """oracle's own reading of a key: tuple of ints, or None if the text is not a key spelling"""
     if isinstance(k, list):
@@ -338,6 +427,14 @@ def corpus():
          "steps": [["save", 0, 0], ["load", 0, "path"], ["swap", 0, 0, 2], ["save", 0, 0], ["load", 0, "path"],
                    ["save", 0, 1], ["load", 0, "path"], ["saves", 1, []], ["loads", 1, "path"], ["saves", 1, [0, 1, 0]],
                    ["loads", 1, "fobj"], ["rekey", 1, 0, [1, 1]], ["saves", 1, [1, 0]], ["loads", 1, "path"]]},
+        # --- HTY number types: int8 counts with bool key entries; float32 weights marginalised over a numpy uint8 array of qubits;
+        # Fraction weights through the helper functions; a negative Fraction is refused
+        {"kind": "construct", "items": [[[0, 1], 3], [[1, 1], 5], [[1, 0], 0]], "normalize": True, "exact": True, "vtype": "npint8", "ktype": "bool"},
+        {"kind": "subdist", "items": [[[0, 1, 1], "1/4"], [[1, 1, 0], "1/2"], [[1, 0, 1], "1/4"]], "normalize": True, "qubits": [2, 0],
+         "exact": True, "vtype": "npfloat32", "ktype": "npmix", "qtype": "nparray_u8"},
+        {"kind": "fns", "items": [["01", "1/3"], ["11", "5/3"], ["10", 1]], "vtype": "Fraction", "ktype": "py"},
+        {"kind": "construct", "items": [[[0], "3/2"], [[1], "-1/2"]], "normalize": True, "exact": True, "vtype": "Fraction", "ktype": "npuint8"},
+        # --- HTY end
     ]
 
 
@@ -769,6 +866,205 @@ def _gen_files(rng, big):
     return c
 
 
+# --- HTY generators: number types of weights / key entries / qubit lists on the constructor, the normalisation helpers and the marginal
+def _hty_weights(rng, n, vtype):
+    """weights the type vtype can hold exactly (and, for float32, whose normalisation is exact: the total is a power of two)"""
+    if vtype == "bool":
+        ws = [Fraction(rng.choice([0, 1, 1])) for _ in range(n)]
+        if not any(ws):
+            ws[rng.randrange(n)] = Fraction(1)
+        return ws, sum(ws) in (1, 2, 4, 8)
+    if vtype in ("int", "npfloat"):
+        ws, ex = _weights(rng, n, rng.choice(["counts", "dyadic", "dyadic_norm", "any"]))
+        if not any(ws):
+            ws[0] = Fraction(1)
+        return ws, ex
+    if vtype in ("npint8", "npuint8"):
+        ws = [Fraction(rng.randrange(0, 9)) for _ in range(n)]
+        while 3 * sum(ws) + 5 > 127:
+            ws[max(range(n), key=lambda i: ws[i])] -= 1
+        if not any(ws):
+            ws[0] = Fraction(1)
+        tot = int(sum(ws))
+        return ws, tot & (tot - 1) == 0
+    if vtype in ("npint64", "npint32", "npuint64"):
+        mode = rng.choice(["counts", "dyadic", "big"])
+        if mode == "big":
+            top = {"npint64": 2 ** 61, "npint32": 2 ** 29, "npuint64": 2 ** 62}[vtype] // (3 * n)
+            return [Fraction(rng.randrange(0, top)) for _ in range(n - 1)] + [Fraction(rng.randrange(1, top))], False
+        ws, ex = _weights(rng, n, mode)
+        ws = [Fraction(int(w)) for w in ws]
+        if not any(ws):
+            ws[0] = Fraction(1)
+        tot = int(sum(ws))
+        return ws, tot & (tot - 1) == 0   # (exact comparison only where the normalisation is exact in binary64)
+    if vtype == "npfloat32":
+        ws, ex = _weights(rng, n, rng.choice(["dyadic_norm", "dyadic", "dyadic"]))
+        if not any(ws):
+            ws[0] = Fraction(1)
+            ex = False
+        return ws, ex
+    mode = rng.choice(["any", "any", "dyadic_norm", "dyadic", "counts", "uniform", "off_one", "magn"])   # Fraction
+    ws, ex = _weights(rng, n, mode)
+    if not any(ws):
+        ws[0] = Fraction(1)
+    return ws, ex
+
+
+def _hty_items(rng, w, n, base, vtype, form=None):
+    keys = _keys(rng, w, n, base)
+    ws, exact = _hty_weights(rng, len(keys), vtype)
+    if vtype == "npfloat32" and not exact:   # float32 is only generated where its arithmetic is exact
+        vtype = "Fraction"
+    form = form or rng.choice(["tuple", "tuple", "str", "comma", "mixed"])
+    items = []
+    for k, v in zip(keys, ws):
+        f = rng.choice(["str", "tuple", "comma"]) if form == "mixed" else form
+        items.append([_spell(rng, k, f), rat(v)])
+    return items, exact, vtype
+
+
+def _hty_types(rng, big):
+    cases = []
+    for rep in range(4 if big else 1):
+        for vt in HTY_VTYPES + ["int", "npfloat"]:
+            for _ in range(5):
+                w = rng.choice([1, 2, 3, 4, 5])
+                base = rng.choice([2, 2, 2, 3, 10, 40])
+                items, exact, vt2 = _hty_items(rng, w, rng.randrange(1, 8), base, vt)
+                kt = rng.choice(["py", "py"] + HTY_KTYPES + ["npint"])
+                nz = rng.random() < 0.8
+                cases.append({"kind": "construct", "items": items, "normalize": nz, "exact": exact, "vtype": vt2, "ktype": kt})
+                cases.append({"kind": "fns", "items": items, "vtype": vt2, "ktype": kt})
+                qs = rng.sample(range(w), rng.randrange(1, w + 1))
+                r = rng.random()
+                if r < 0.08:
+                    qs.insert(rng.randrange(len(qs) + 1), rng.choice(qs))         # a duplicate
+                elif r < 0.16:
+                    qs.insert(rng.randrange(len(qs) + 1), w + rng.randrange(0, 2))   # out of range
+                cases.append({"kind": "subdist", "items": items, "normalize": rng.random() < 0.85, "qubits": qs, "exact": exact,
+                              "vtype": vt2, "ktype": kt, "qtype": rng.choice(HTY_QTYPES + ["npint"])})
+            # a history on long-lived objects of this value type
+            w = rng.choice([2, 3, 3, 4])
+            items, exact, vt2 = _hty_items(rng, w, rng.randrange(2, 8), rng.choice([2, 2, 10]), vt, form=rng.choice(["tuple", "str", "mixed"]))
+            kt = rng.choice(["py"] + HTY_KTYPES)
+            nz = rng.random() < 0.7
+            specs = [_spec(items, nz, vt2, kt), _spec(_siblings(rng, items, w, 2), nz, vt2, kt)]
+            steps = []
+            allq = [list(x) for r_ in range(1, w + 1) for x in itertools.permutations(range(w), r_)]
+            for qs in rng.sample(allq, min(6, len(allq))):
+                sidx = rng.randrange(2)
+                steps.append(["sub", sidx, qs, rng.random() < 0.2])
+                r = rng.random()
+                if r < 0.15:
+                    steps.append(["swap", sidx, rng.randrange(8), rng.randrange(8)])
+                elif r < 0.25 and vt2 not in ("npint8", "npuint8"):
+                    steps.append(["scale", sidx, rng.randrange(8)])
+                elif r < 0.45 and len(qs) >= 2:
+                    steps.append(["chain", sidx, qs, rng.sample(range(len(qs)), rng.randrange(1, len(qs) + 1))])
+            cases.append({"kind": "hist", "specs": specs, "steps": steps, "exact": exact, "qtype": rng.choice(HTY_QTYPES)})
+        # malformed input in every value type: a negative weight, all weights zero, a negative / odd-length key with numpy entries
+        for vt in HTY_VTYPES:
+            if vt in ("bool", "npuint8", "npuint64"):
+                continue
+            w = rng.randrange(1, 4)
+            items, _, vt2 = _hty_items(rng, w, rng.randrange(2, 5), 2, vt, form="tuple")
+            bad = [list(x) for x in items]
+            bad[rng.randrange(len(bad))][1] = rat(-Fraction(rng.randrange(1, 4), 1 if vt.startswith("npint") else 2))
+            cases.append({"kind": "construct", "items": bad, "normalize": rng.random() < 0.8, "exact": False, "vtype": vt2, "ktype": rng.choice(["py"] + HTY_KTYPES)})
+            cases.append({"kind": "fns", "items": bad, "vtype": vt2, "ktype": "py"})
+        for kt in HTY_KTYPES + ["npint"]:
+            w = rng.randrange(2, 5)
+            items, exact, vt2 = _hty_items(rng, w, rng.randrange(2, 6), rng.choice([2, 3]), rng.choice(["Fraction", "npint64", "int"]), form="tuple")
+            zero = [[k, 0] for k, _ in items]
+            cases.append({"kind": "construct", "items": zero, "normalize": True, "exact": False, "vtype": vt2, "ktype": kt})
+            odd = [list(x) for x in items] + [[[0] * (w + 1), "1/4"]]
+            cases.append({"kind": "construct", "items": odd, "normalize": True, "exact": False, "ktype": kt})
+            if kt not in ("npuint8", "npuint64", "bool"):
+                neg = [list(x) for x in items] + [[[-1] + [0] * (w - 1), "1/4"]]
+                if len({tuple(k) for k, _ in neg}) == len(neg):
+                    cases.append({"kind": "construct", "items": neg, "normalize": True, "exact": False, "ktype": kt})
+        # every qubit-list form x every ordered sub-list of a width-3 register
+        for qt in HTY_QTYPES:
+            items, exact, vt2 = _hty_items(rng, 3, rng.randrange(2, 8), 2, rng.choice(["Fraction", "int", "npfloat32"]))
+            for r_ in range(1, 4):
+                for qs in itertools.permutations(range(3), r_):
+                    cases.append({"kind": "subdist", "items": items, "normalize": True, "qubits": list(qs), "exact": exact, "vtype": vt2, "qtype": qt})
+            w = rng.choice([11, 12, 13])
+            items, exact, vt2 = _hty_items(rng, w, rng.randrange(2, 9), 2, "Fraction", form="tuple")
+            qs = rng.sample(range(w), rng.randrange(2, 9))
+            cases.append({"kind": "subdist", "items": items, "normalize": True, "qubits": qs, "exact": exact, "vtype": vt2, "qtype": qt})
+            cases.append({"kind": "subdist", "items": items, "normalize": True, "qubits": list(range(w - 1, 1, -2)), "exact": exact, "vtype": vt2, "qtype": qt})
+    return cases
+
+
+def _hty_run_fns(D, c):
+    """the public helpers behind the constructor, called one after the other on the caller's dictionary (route agreement: the object
+    holds what normalising the preprocessed dictionary gives)"""
+    inp = _to_dict(c["items"], c.get("vtype", "float"), c.get("ktype", "py"))
+    pre = _guard(lambda: D.preprocess_distibution_dict(inp))
+    if isinstance(pre, str):
+        return {"pre": pre}
+    out = {"pre": [[[int(e) for e in k], rat(_hty_exact(v))] for k, v in pre.items()] if all(isinstance(k, tuple) for k in pre) else "not-tuples",
+           "pre_same_values": [v is w_ for v, w_ in zip(pre.values(), inp.values())] if len(pre) == len(inp) else None}
+    valid = _guard(lambda: bool(D.is_measurement_outcome_distribution(pre)))
+    out["valid"] = valid
+    if valid is not True:
+        return out
+    out["is_normalized"] = _guard(lambda: bool(D.is_normalized(pre)))
+    normed = _guard(lambda: _quiet(lambda: D.normalize_measurement_outcome_distribution(dict(pre))))
+    out["normalized"] = normed if isinstance(normed, str) else _canon_dict(normed)
+    if not isinstance(normed, str):
+        out["normalized_is_normalized"] = _guard(lambda: bool(D.is_normalized(normed)))
+    obj = _guard(lambda: _quiet(lambda: D.MeasurementOutcomeDistribution(inp)))
+    out["object"] = obj if isinstance(obj, str) else _canon_dict(obj.distribution_dict)
+    return out
+
+
+def _hty_oracle_fns(c, out):
+    cls, keys, vals = _classify_input(c["items"])
+    if cls in ("malformed", "collision"):
+        return None
+    pre = out["pre"]
+    if isinstance(pre, str) or pre == "not-tuples":
+        return ("preprocess-rejects-keys", f"preprocess_distibution_dict refused / mangled the keys of {c['items']}: {pre}") if keys else None
+    if [tuple(k) for k, _ in pre] != keys or any(unrat(g) not in (v, Fraction(float(v))) for (_, g), v in zip(pre, vals)):
+        return ("preprocess-changes-content", f"preprocess_distibution_dict({c['items']}) gives {pre}: the outcomes / weights are {list(zip(keys, vals))}")
+    if cls == "invalid":
+        return None if out["valid"] is not True else ("construct-accepts-invalid", f"is_measurement_outcome_distribution is True for {c['items']}")
+    if out["valid"] is not True:
+        return ("construct-rejects-valid", f"is_measurement_outcome_distribution({c['items']}) is {out['valid']} for a well-formed dictionary")
+    tot = sum(vals)
+    off = abs(tot - 1)
+    if off == 0 or off > Fraction(1, 10 ** 6):   # (clear of the tolerance with which "sums to 1" is read)
+        if out["is_normalized"] is not (off == 0):
+            return ("is-normalized-wrong", f"is_normalized is {out['is_normalized']} for weights {[float(v) for v in vals]} of total {float(tot)!r}")
+    if cls != "valid":
+        return None
+    res = out["normalized"]
+    if isinstance(res, str):
+        return ("construct-rejects-valid", f"normalize_measurement_outcome_distribution raised {res} on {c['items']}")
+    got = [(tuple(kk), unrat(v)) for kk, v in res]
+    if [kk for kk, _ in got] != keys:
+        return ("construct-keys", f"normalize_measurement_outcome_distribution changed the outcomes of {c['items']} to {[kk for kk, _ in got]}")
+    for (kk, g), v in zip(got, vals):
+        if _off(g, v / tot, "2e-9"):
+            return ("construct-proportions", f"normalize_measurement_outcome_distribution({c['items']}): value at {kk} is {float(g)!r}, "
+                    f"the proportional share is {float(v / tot)!r}")
+    if out.get("normalized_is_normalized") is not True:
+        return ("construct-not-normalised", f"is_normalized is {out.get('normalized_is_normalized')} for the normalised dictionary {res}")
+    f = _judge_construct(c["items"], True, out["object"], None, "MeasurementOutcomeDistribution: ")
+    if f:
+        return f
+    if not isinstance(out["object"], str):   # route agreement: same outcomes, same values up to rounding
+        for (kk, g), (_, h) in zip(got, [(tuple(a), unrat(b)) for a, b in out["object"]]):
+            if _off(h, g, "1e-9"):
+                return ("construct-proportions", f"the object built from {c['items']} holds {float(h)!r} at {kk}, "
+                        f"normalize_measurement_outcome_distribution(preprocess_distibution_dict(.)) gives {float(g)!r}")
+    return None
+# --- HTY end
+
+
 def generate(rng, tier):
     big = tier == "thorough"
     cases = []
@@ -901,6 +1197,10 @@ def generate(rng, tier):
         q, _ = _items(rng, w, rng.randrange(1, 4), 2)
         cases.append({"kind": "dist", "p": p, "q": q, "sigma": rat(Fraction(rng.randrange(1, 80), 4)),
                       "eps": "1/1000000000"})
+    # --- HTY number types on the constructor / normalisation helpers / marginal (a fresh generator: the streams above stay as they were)
+    import random as _hty_random
+    cases += _hty_types(_hty_random.Random(rng.getrandbits(64)), big)
+    # --- HTY end
     return cases
 
 
@@ -952,6 +1252,38 @@ def _qlist(qs, qtype):
         import numpy as np
         return [np.int64(q) for q in qs]
     return list(qs)
+
+
+# --- HTY the qubit list in other forms: tuple, range (where the list is an arithmetic run), numpy arrays, numpy integers of any width
+HTY_QTYPES = ["tuple", "range", "nparray", "nparray_u8", "nparray_i8", "npint8", "npmix"]
+_qlist_plain = _qlist
+
+
+def _qlist(qs, qtype):
+    import numpy as np
+    qs = list(qs)
+    if qtype == "tuple":
+        return tuple(qs)
+    if qtype == "range":
+        if len(qs) >= 2 and len({b - a for a, b in zip(qs, qs[1:])}) == 1 and qs[1] != qs[0]:
+            return range(qs[0], qs[-1] + (1 if qs[1] > qs[0] else -1), qs[1] - qs[0])
+        if len(qs) == 1 and qs[0] >= 0:
+            return range(qs[0], qs[0] + 1)
+        return tuple(qs)
+    if qtype in ("nparray", "nparray_u8", "nparray_i8"):
+        dt = {"nparray": np.int64, "nparray_u8": np.uint8, "nparray_i8": np.int8}[qtype]
+        if qs and all(np.iinfo(dt).min <= q <= np.iinfo(dt).max for q in qs):
+            return np.array(qs, dtype=dt)
+        return qs
+    if qtype in ("npint8", "npmix"):
+        tys = [np.int8] if qtype == "npint8" else [np.int8, np.uint8, np.int64, np.int16, np.uint32, np.intp]
+        out = []
+        for i, q in enumerate(qs):
+            t = tys[i % len(tys)]
+            out.append(t(q) if np.iinfo(t).min <= q <= np.iinfo(t).max else q)
+        return out
+    return _qlist_plain(qs, qtype)
+# --- HTY end
 
 
 def _edit_in_place(dd, st):
@@ -1007,6 +1339,10 @@ def run_impl(c):
         return _run_pool(D, c)
     if k == "files":
         return _run_files(D, c)
+    # --- HTY
+    if k == "fns":
+        return _hty_run_fns(D, c)
+    # --- HTY end
     raise AssertionError("unknown kind")
 
 
@@ -1039,11 +1375,17 @@ def _run_construct(D, c):
     out["res_after_input_edit"] = _canon_dict(obj.distribution_dict)
     # a third object from the SAME dictionary object, whose content is different now
     out["items_third"] = [[kk if isinstance(kk, str) else [int(e) for e in kk] if isinstance(kk, tuple) else None,
-                           rat(Fraction(v))] for kk, v in inp.items()]
+                           rat(_hty_exact(v))] for kk, v in inp.items()]   # --- HTY: _hty_exact (a value of any number type) --- HTY end
     before3 = list(inp.items())
     obj3 = _guard(make)
     out["res_third"] = obj3 if isinstance(obj3, str) else _canon_dict(obj3.distribution_dict)
     out["third_intact"] = list(inp.items()) == before3
+    # --- HTY: float32 weights are normalised in float32 arithmetic; the EDITED dictionary's total is no longer a power of two, so its
+    # normalisation is rounded to float32 - that third object is not judged (the first two, with exact arithmetic, are)
+    if c.get("vtype") == "npfloat32":
+        out.pop("res_third")
+        out.pop("items_third")
+    # --- HTY end
     snap = list(inp.items())
     dd = obj.distribution_dict
     for kk in list(dd.keys()):
@@ -1639,6 +1981,10 @@ def oracle(c, out):
         return _oracle_pool(c, out)
     if k == "files":
         return _oracle_files(c, out)
+    # --- HTY
+    if k == "fns":
+        return _hty_oracle_fns(c, out)
+    # --- HTY end
     return None
 
 
@@ -2130,3 +2476,44 @@ def distribution(cases, outs):
                 1 for c in cases if max([len(c.get("items", []))] + [len(c.get(x, [])) for x in ("p", "q")]
                                         + [len(sp["items"]) for sp in c.get("specs", [])]) >= 64),
             "registers_of_width_32_or_more": sum(1 for k in widths if k >= 32 for _ in range(widths[k]))}
+
+
+# --- HTY evidence: which number types the constructor / normalisation / marginal cases of a run used
+_distribution_plain = distribution
+
+
+def distribution(cases, outs):
+    d = _distribution_plain(cases, outs)
+    vt, kt, qt = {}, {}, {}
+    for c in cases:
+        specs = c.get("specs") if c["kind"] == "hist" else [c] if c["kind"] in ("construct", "subdist", "fns", "saveload") else []
+        for sp in specs or []:
+            vt[sp.get("vtype", "float")] = vt.get(sp.get("vtype", "float"), 0) + 1
+            kt[sp.get("ktype", "py")] = kt.get(sp.get("ktype", "py"), 0) + 1
+        if c["kind"] in ("subdist", "hist"):
+            qt[c.get("qtype") or "list"] = qt.get(c.get("qtype") or "list", 0) + 1
+    d["number_types"] = {"weight_types": vt, "key_entry_types": kt, "qubit_list_forms": qt,
+                         "helper_route_cases": sum(1 for c in cases if c["kind"] == "fns")}
+    return d
+
+
+RULE += ("; NUMBER TYPES (constructor, preprocess / is_measurement_outcome_distribution / is_normalized / normalize helpers called "
+         "directly [kind fns, route agreement with the object], marginal, histories): weights as Fraction / bool / numpy float32 / int8 / "
+         "uint8 / int32 / int64 / uint64 next to int / float / numpy float64, key entries as numpy int8 / uint8 / int32 / uint64 / mixed "
+         "widths / Python bools, qubit lists as tuple / range / numpy arrays (int64, uint8, int8) / numpy integers of any width; "
+         "malformed input (negative weight, zero total, negative / odd-length key) in every type")
+TRUSTED += [
+    "number types: Fraction / int(numerator) / int(denominator) / float(v) read the exact value of a stored Fraction, Python or numpy integer, "
+    "bool, numpy float32 / float64; numpy scalar arithmetic against Python numbers keeps the numpy type (NEP 50) and is exact where "
+    "the result is representable (typed cases are generated so that it is)",
+]
+ASSUMPTIONS += [
+    "number types (established on the unchanged library): a weight may be a Python int / float / bool, a Fraction or a numpy real scalar; "
+    "a key is a string or a tuple of Python ints / bools / numpy integers (numpy bool, float and sympy entries are refused with "
+    "RuntimeError - out of domain); the qubit list may be a list / tuple / range / 1-d numpy integer array of Python or numpy ints.  "
+    "numpy float32 weights are normalised in float32: they are generated with dyadic values whose total is a power of two (exact)",
+    "EXCLUDED (defect of the unchanged library, reported): weights given as numpy integers of a width their TOTAL does not fit - "
+    "sum() of numpy scalars wraps around, MeasurementOutcomeDistribution({(0,): np.int8(100), (1,): np.int8(100)}) holds the "
+    "'probabilities' -1.79 each (np.uint8(200), np.uint8(100): 4.55 and 2.27); typed integer weights are generated with 3 * total + 5 inside the type",
+]
+# --- HTY end
